@@ -299,36 +299,42 @@ impl Cluster {
         self.wait_http(0, 30)?;
         self.wait_quiescent(30)?;
         for i in 1..self.nodes.len() {
+            self.start_node(i)?;
+            self.wait_http(i, 30)?;
+            let id = self.nodes[i].id;
+            let t0 = Instant::now();
+            let mut n = 0;
             let mut joined = false;
-            for attempt in 0..2 {
-                if attempt > 0 {
-                    self.kill(i);
-                }
-                self.start_node(i)?;
-                self.wait_http(i, 30)?;
-                let t0 = Instant::now();
-                let mut n = 0;
-                while t0.elapsed() < Duration::from_secs(30) {
-                    n += 1;
-                    let _ = self.publish(0, "", "DEFAULT_GROUP", "zz-nudge", &format!("f{}", n));
-                    let id = self.nodes[i].id;
-                    let member = self
-                        .metrics(0)
-                        .and_then(|m| m["membership_config"]["members"].as_array().map(|a| a.iter().any(|x| x.as_u64() == Some(id))))
-                        .unwrap_or(false);
-                    let follower = self.metrics(i).map(|m| m["state"] == "Follower").unwrap_or(false);
-                    if member && follower {
-                        joined = true;
-                        break;
-                    }
-                    std::thread::sleep(Duration::from_millis(300));
-                }
-                if joined {
+            let mut helped = false;
+            while t0.elapsed() < Duration::from_secs(60) {
+                n += 1;
+                let _ = self.publish(0, "", "DEFAULT_GROUP", "zz-nudge", &format!("f{}", n));
+                let member = self
+                    .metrics(0)
+                    .and_then(|m| m["membership_config"]["members"].as_array().map(|a| a.iter().any(|x| x.as_u64() == Some(id))))
+                    .unwrap_or(false);
+                let follower = self.metrics(i).map(|m| m["state"] == "Follower").unwrap_or(false);
+                if member && follower {
+                    joined = true;
                     break;
                 }
+                // join_node ignores the result of raft.change_membership (it fails e.g. while the previous
+                // change is still in flight) but records the node as a member in the index file anyway; the
+                // documented remedy is the management API, used here only while the cluster is being formed
+                if !member && t0.elapsed() > Duration::from_secs(6) {
+                    let ids: Vec<u64> = (0..=i).map(|k| self.nodes[k].id).collect();
+                    let _ = self
+                        .client
+                        .post(format!("{}/nacos/v1/raft/change-membership", self.http(0)))
+                        .json(&ids)
+                        .timeout(Duration::from_secs(10))
+                        .send();
+                    helped = true;
+                }
+                std::thread::sleep(Duration::from_millis(400));
             }
             if !joined {
-                return Err(format!("node {} did not become a voting member; log: {}", i + 1, self.log_tail(i)));
+                return Err(format!("node {} did not become a voting member (management API used: {}); log: {}", i + 1, helped, self.log_tail(i)));
             }
         }
         self.wait_quiescent_nudged(45, 0).map(|_| ())
